@@ -1207,6 +1207,7 @@ package mocrelay
 
 //@ func eventCacheEvsIndex.keysFromReqFilter
 //@   serves C03 C15
+//@   opt merge=off
 //@   requires filter != nil
 //@   writes nothing
 //@   ensures (filter.IDs != nil || filter.Authors != nil || filter.Kinds != nil || len(filter.Tags) > 0) ==> len(result) >= 1
